@@ -319,6 +319,48 @@ def gen_step_iter(rng, n):
     return cases
 
 
+# model-guided window schedules (lib/conc_windows2.py): thread 0 fills the set, then an iterating thread and 1-2 updaters
+# collide in the same head slot / array node.  The iterator hardly writes: it is stalled before EVERY access (between the load
+# of a slot and the hazard publication, between two slots, before the erase_at CAS), the updater runs exactly through one of
+# its writes (slot marked `array converting`, array node installed, element replaced / removed) or its whole operation; the same
+# from states in which an updater is parked right after one of its writes (a slot being converted while the iterator passes).
+#   (name, index into C14.FHASH, (head bits, array bits), set-up operations, programs of the participants)
+WINDOW_TEMPLATES = [
+    ("iter_vs_expand_erase", 2, (4, 2), [[1, 0], [1, 1]], [[[20, 99]], [[1, 2]], [[7, 0]]]),
+    ("erase_at_vs_erase_update", 0, (4, 2), [[1, 0], [1, 1], [1, 2]], [[[20, 1]], [[7, 1]], [[3, 1]]]),
+    ("reverse_vs_expand", 2, (4, 2), [[1, 0]], [[[21, 99]], [[1, 1]], [[7, 0]]]),
+    ("erase_at_deep_expand", 1, (4, 2), [[1, 0]], [[[20, 0]], [[1, 1]], [[3, 0]]]),
+    ("two_iterators", 0, (4, 2), [[1, 0], [1, 3]], [[[20, 99]], [[21, 3]], [[7, 0], [1, 0]]]),
+    ("reverse_erase_at_reinsert", 2, (4, 2), [[1, 0], [1, 1]], [[[21, 1]], [[7, 1], [1, 1]], [[3, 0]]]),
+]
+WINDOW_QUICK = 360
+WINDOW_QUICK_CANDIDATES = 2500
+WINDOW_THOROUGH = 10000
+
+
+def gen_window_cases(ctx, model, rng):
+    import conc_windows2
+    templates = [{"name": n, "cfg": [400, hb, ab] + C14.FHASH[hi], "threads": [setup] + parts, "setup": 1}
+                 for n, hi, (hb, ab), setup, parts in WINDOW_TEMPLATES]
+    th = ctx.thorough()
+    wdir = os.path.join(ctx.work, "wprobe_iter")
+    cases, info = conc_windows2.expand(model, wdir, templates, "wit_", fuel=200000,
+                                       r_values=tuple(range(0, 13)) if th else (0, 1, 2, 3, 5, 8, 12), read_points=True,
+                                       staged=True, max_ws=4 if th else 2, staged_max_wa=4 if th else 3,
+                                       staged_r_values=(0, 1, 2, 3, 5, 8) if th else (0, 1, 3, 6), lazy=True)
+    info["enumerated"] = len(cases)
+    if th:
+        cases = conc_windows2.stratified(rng, cases, WINDOW_THOROUGH)
+    else:
+        cases = conc_windows2.stratified(rng, cases, WINDOW_QUICK_CANDIDATES)
+        paths = conc_windows2.model_paths(model, wdir, cases, "wit", fuel=200000)
+        cases, info["selection"] = conc_windows2.select_by_cover(rng, cases, paths, WINDOW_QUICK)
+    cases = conc_windows2.finalize(cases)
+    info["run"] = len(cases)
+    info.pop("per_template", None)
+    return cases, info
+
+
 def step_stage(ctx, n):
     src = os.path.join(HDIR, "step_feldman_iter.cpp")
     if not os.path.exists(src) or not os.path.exists(os.path.join(vcheck.COQ, "Extract", "Extract_FeldmanIter.v")):
@@ -341,6 +383,8 @@ def step_stage(ctx, n):
                 cases.append(dict(c, id="corpus_" + os.path.basename(f)[:-5]))
         except Exception:
             pass
+    wcases, winfo = gen_window_cases(ctx, model, vcheck.SplitMix64(ctx.seed * 977 + 19))
+    cases = cases + wcases
     chunks = [cases[j::8] for j in range(8)]
 
     def one(j):
@@ -352,10 +396,13 @@ def step_stage(ctx, n):
     st = {"cases": len(cases), "agree": 0, "diverged": 0, "model_out_of_fuel": 0, "impl_steps_compared": 0, "visits": 0, "erase_at": 0,
           "erase_at_false": 0, "erase_at_unlink_path": 0, "monitor_bad": 0, "modelled": STEP_WHAT}
     divs = []
+    allimpl = {}
+    st["diverged_window_schedules"] = 0
     for j, o in enumerate(outs):
         if o is None:
             continue
         rc1, ml, rc2, il, raw = o
+        allimpl.update(il)
         for c in chunks[j]:
             m = ml.get(c["id"]); i = il.get(c["id"])
             if m is None or i is None:
@@ -385,9 +432,19 @@ def step_stage(ctx, n):
                 continue
             if d is not None:
                 st["diverged"] += 1
+                st["diverged_window_schedules"] += 1 if c.get("kind") == "window" else 0
                 divs.append((c, d))
             else:
                 st["agree"] += 1
+    import conc_windows2
+    ws = conc_windows2.event_stats(cases, allimpl)
+    ws["generator"] = winfo
+    ws["rule"] = ("victim (iterator or updater) stalled before each CAS and before every other access, actor runs exactly through one of its writes (measured "
+                  "on the model in that state) or its whole program, victim gets r more steps, third thread before / after / in between; also from states with "
+                  "an updater parked right after one of its writes; with_retry_path = a thread executed more CAS than in its solo run")
+    st["window_schedules"] = ws
+    ctx.log("step[iterators] windows: %d schedules, %d with a failed CAS, %d with a retry path, %d with a longer path, %d diverged"
+            % (ws["window_cases"], ws["with_failed_cas"], ws["with_retry_path"], ws["with_longer_path"], st["diverged_window_schedules"]))
     return st, divs
 
 def run(ctx):
@@ -411,7 +468,10 @@ def run(ctx):
     if props:
         res = vcheck.coq_build(props)
         ctx.coq_evidence(res)
-    exes = C14.build_shards(ctx, srcs, INC)
+    if os.environ.get("VERIF_ONLY") == "step":
+        srcs = []           # mutation experiments on the step-modelled code: the breadth stage is skipped
+        ctx.coverage["restricted_run"] = "VERIF_ONLY=step"
+    exes = C14.build_shards(ctx, srcs, INC) if srcs else {}
     per_variant = 1500 if ctx.thorough() else 350
     allcases = {}
     corpus = []
@@ -458,10 +518,22 @@ def run(ctx):
         "rule": "one evaluation = one (variant, configuration, prefill, iterating thread + 1-2 updaters, schedule) run on the real container under the deterministic scheduler with the log-based monitor; non-trivial = an iteration during which another thread's insertion or removal completed",
         "variants": len(stats), "per_variant": stats, "corpus_cases": len(corpus),
         "traces_validated_against_impl": sum(s.get("ok", 0) for s in stats.values()),
-        "samples": [allcases[n][len(allcases[n]) // 2] for n in sorted(allcases)][:2],
+        "samples": [allcases[n][len(allcases[n]) // 2] for n in sorted(allcases) if allcases[n]][:2],
     })
     if sst is not None:
         ctx.coverage["step_correspondence"] = {"feldman_iter": sst}
+    # IterableList<HP> iterator: step correspondence with LV.Model.IterListIter (checks/C19_iterlist.py; its theorems are
+    # in the companion file Properties_C19_IterList.v, built with the other obligations above)
+    try:
+        import C19_iterlist
+        il = C19_iterlist.run_iterlist(ctx)
+        if isinstance(il, dict):
+            il.pop("_divs", None)
+        ctx.coverage.setdefault("step_correspondence", {})["iterlist_iter"] = il
+    except vcheck.BuildError as e:
+        ctx.coverage.setdefault("step_correspondence", {})["iterlist_iter"] = {"build_failure": str(e)[-1500:]}
+        ctx.violation("harness/C19/iterlist_main.cpp does not build against the working tree: the IterableList iterator part cannot be checked",
+                      {"kind": "build-failure", "harness": "iterlist_main", "error": str(e)[-2000:]}, no_input=True)
     if "obligations" not in ctx.coverage:
         ctx.coverage.update({"obligations": 0, "discharged": 0, "checker_cmd": "n/a (implementation-side monitor only)"})
     return ctx.finish(vcheck.STD_TRUSTED + ["hook layer: khizmax_libcds_verif::atomic<T>, baton scheduler (hooks/include)", "harness/C19 log format and checks/C19.py monitor"],
